@@ -38,6 +38,17 @@ def upd_fs(rule, a):
     return wire.frame(wire.UPDATE, update_body(b'', base_attrs(a, nexthop=False) + attr(0x80, 14, mp), b''))
 
 
+def upd_fs2(rules, a):
+    nlri = b''.join(bytes([len(FS[r][1])]) + FS[r][1] for r in rules)
+    mp = struct.pack('!HBB', 1, 133, 0) + b'\x00' + nlri
+    return wire.frame(wire.UPDATE, update_body(b'', base_attrs(a, nexthop=False) + attr(0x80, 14, mp), b''))
+
+
+def wd_fs2(rules):
+    nlri = b''.join(bytes([len(FS[r][1])]) + FS[r][1] for r in rules)
+    return wire.frame(wire.UPDATE, update_body(b'', attr(0x80, 15, struct.pack('!HB', 1, 133) + nlri), b''))
+
+
 def wd_fs(rule):
     nlri = bytes([len(FS[rule][1])]) + FS[rule][1]
     return wire.frame(wire.UPDATE, update_body(b'', attr(0x80, 15, struct.pack('!HB', 1, 133) + nlri), b''))
@@ -71,6 +82,7 @@ def ops(group):
         for a in MEDS:
             o['rx-ann-p1-wd-p2-%s' % a] = ('rx', upd_v4(['p1'], a, ['p2']), [('in', 'ipv4', 'wd', 'p2', None), ('in', 'ipv4', 'ann', 'p1', a)])
         o['rx-ann-p1p2-a1'] = ('rx', upd_v4(['p1', 'p2'], 'a1'), [('in', 'ipv4', 'ann', 'p1', 'a1'), ('in', 'ipv4', 'ann', 'p2', 'a1')])
+        o['rx-wd-p1p2'] = ('rx', upd_v4(wd=['p1', 'p2']), [('in', 'ipv4', 'wd', 'p1', None), ('in', 'ipv4', 'wd', 'p2', None)])
         for p in P:
             for a in MEDS:
                 o['send-ann-%s-%s' % (p, a)] = ('rest', {'attr': json_attr(a), 'nlri': [P[p][0]]}, [('out', 'ipv4', 'ann', p, a)])
@@ -80,6 +92,9 @@ def ops(group):
             for a in MEDS:
                 o['rx-fs-ann-%s-%s' % (f, a)] = ('rx', upd_fs(f, a), [('in', 'flowspec', 'ann', f, a)])
             o['rx-fs-wd-%s' % f] = ('rx', wd_fs(f), [('in', 'flowspec', 'wd', f, None)])
+        o['rx-fs-wd-f1f2'] = ('rx', wd_fs2(('f1', 'f2')), [('in', 'flowspec', 'wd', 'f1', None), ('in', 'flowspec', 'wd', 'f2', None)])
+        o['rx-fs-wd-f2f1'] = ('rx', wd_fs2(('f2', 'f1')), [('in', 'flowspec', 'wd', 'f2', None), ('in', 'flowspec', 'wd', 'f1', None)])
+        o['rx-fs-ann-f1f2-a1'] = ('rx', upd_fs2(('f1', 'f2'), 'a1'), [('in', 'flowspec', 'ann', 'f1', 'a1'), ('in', 'flowspec', 'ann', 'f2', 'a1')])
         for a in MEDS:
             at = {'1': 0, '2': [], '5': 100, '4': MEDS[a], '14': {'afi_safi': [1, 133], 'nexthop': '', 'nlri': [FS['f1'][0]]}}
             o['send-fs-ann-f1-%s' % a] = ('rest', {'attr': at}, [('out', 'flowspec', 'ann', 'f1', a)])
@@ -89,10 +104,15 @@ def ops(group):
             for a in MEDS:
                 o['rx-vpn-ann-%s-%s' % (v, a)] = ('rx', upd_vpn(v, a), [('in', 'mpls_vpn', 'ann', v, a)])
             o['rx-vpn-wd-%s' % v] = ('rx', wd_vpn(v), [('in', 'mpls_vpn', 'wd', v, None)])
-    o['DROP'] = ('drop', None, [('drop',)])
+        both = b''.join((VPN[v][:1] + b'\x80\x00\x00' + VPN[v][4:]) for v in ('v1', 'v2'))
+        o['rx-vpn-wd-v1v2'] = ('rx', wire.frame(wire.UPDATE, update_body(b'', attr(0x80, 15, struct.pack('!HB', 1, 128) + both), b'')),
+                               [('in', 'mpls_vpn', 'wd', 'v1', None), ('in', 'mpls_vpn', 'wd', 'v2', None)])
+    o['DROP'] = ('drop', 'peer-close', [('drop',)])
+    o['DROP-notification'] = ('drop', 'notification', [('drop',)])     # the agent closes (peer sent a NOTIFICATION)
+    o['DROP-stop-start'] = ('drop', 'stop-start', [('drop',)])         # the operator stops and starts the peer
     if group == 'mixed':
         keep = ['rx-ann-p1-a1', 'rx-wd-p1', 'rx-fs-ann-f1-a1', 'rx-fs-wd-f1', 'rx-vpn-ann-v1-a1', 'rx-vpn-wd-v1',
-                'send-ann-p1-a1', 'send-fs-ann-f1-a1', 'DROP']
+                'send-ann-p1-a1', 'send-fs-ann-f1-a1', 'DROP', 'DROP-notification']
         o = {k: o[k] for k in keep}
     return o
 
@@ -128,9 +148,18 @@ def establish(w):
         w.step(ev, M)
 
 
-def reestablish(w):
-    w.step(('PEER_CLOSE', 0), M)
-    w.rib_after_drop = dict(w.fsm.protocol.adj_rib_in.get('ipv4', {})) if w.fsm.protocol is not None else {}
+def reestablish(w, how='peer-close'):
+    old = w.fsm.protocol
+    if how == 'peer-close':
+        w.step(('PEER_CLOSE', 0), M)
+    elif how == 'notification':
+        w.step(('RX', 0, 'NOTIF_CEASE'), M)
+        w.step(('CLOSE_DONE', 0), M)
+    else:
+        w.step(('OP_STOP',), M)
+        w.step(('CLOSE_DONE', 0), M)
+        w.step(('OP_START',), M)
+    w.rib_after_drop = dict(old.adj_rib_in.get('ipv4', {})) if old is not None else {}
     sc = explore.Script(w.cfg)
 
     class H(object):
@@ -188,7 +217,7 @@ def run_history(group, hist):
                 if i == len(hist) - 1:
                     viol.append(('C19|REST send/update refused a well-formed request|%s' % name.split('-')[1], {'status': st, 'json': js}))
         else:
-            reestablish(w)
+            reestablish(w, payload)
             obs = []
         model.apply(eff)
         if i != len(hist) - 1:
